@@ -19,7 +19,13 @@ func run(h *common.History) {
 	h.Obs = [][]string{{}}
 	for _, op := range h.Ops[1:] {
 		d, ld, a, la, b, lb := common.AtoI(op[0]), common.AtoI(op[1]), common.AtoI(op[2]), common.AtoI(op[3]), common.AtoI(op[4]), common.AtoI(op[5])
-		n := xor.XorBytes(mem[d:d+ld:d+ld], mem[a:a+la:a+la], mem[b:b+lb:b+lb])
+		var n int
+		if (d+a+b)%2 == 0 {
+			n = xor.XorBytes(mem[d:d+ld:d+ld], mem[a:a+la:a+la], mem[b:b+lb:b+lb])
+		} else {
+			// slices whose capacity extends beyond their length: nothing beyond len may be read or written
+			n = xor.XorBytes(mem[d:d+ld], mem[a:a+la], mem[b:b+lb])
+		}
 		o := make([]string, 0, len(mem)+1)
 		o = append(o, common.I(n))
 		for _, x := range mem {
